@@ -89,9 +89,9 @@ GET_EXT["AliasReturnCommandResult"] = Ext(ret=Seq(Word), ensures=["result == a0"
 contract(
     A + "Aliases.get", "C15",
     params=dict(self=ALIASES, key=KEY, default=Union(NoneT, Opaque("default")), decorators=Nullable(List(Dec))),
-    returns=GETRES, config=CFG, externals=GET_EXT,
+    returns=GETRES, config=dict(CFG, default_set_elem=Str), externals=GET_EXT,
     globals={"XSH": Obj("XSH", env=Obj("Env"))},
-    locals={"kwarg_env": Dict(Str, Str), "returned_env": Dict(Str, Str), "decorators": List(Dec), "args": List(Word)},
+    locals={"kwarg_env": Dict(Str, Str), "returned_env": Dict(Str, Str), "decorators": List(Dec), "args": List(Word), "seen_tokens": Set(Str)},
     axioms=CARD_AXIOMS,
     emits=["rc_call", "expand"],
     modifies=["decorators"],
@@ -103,6 +103,8 @@ contract(
         "a-command-is-never-empty": "result is None or result is default or len(result) >= 1",
         "unknown-name-gives-default": "implies((key if isinstance(key, str) else key[0]) not in self._raw, result is default)",
         "each-alias-at-most-once": 'forall(lambda i, j: implies(i < j, log("expand")[i] != log("expand")[j]), 0, len(log("expand")))',
+        "the-alias-looked-up-is-not-expanded-again-in-its-own-chain (ls -> ls --color; a return_command alias that returns its own name)":
+            'implies(isinstance(key, str), forall(lambda i: log("expand")[i] != key, 0, len(log("expand"))))',
     },
     from_property="appends the user's arguments after the alias's own in their original order; each alias at most once per chain; "
                   "terminates (every expansion goes through eval_alias, whose recursion carries the termination variant)",
